@@ -22,7 +22,7 @@ import (
 // drawField draws an expectation for a field whose actual value in the quote is `actual`.
 func drawField(t *rapid.T, name string, actual []byte, s *gen.Stream) []byte {
 	n := len(actual)
-	kind := rapid.SampledFrom([]string{"nil", "nil", "nil", "equal", "equal", "empty", "flip-first", "flip-last", "flip-any", "short", "long", "random"}).Draw(t, name)
+	kind := rapid.SampledFrom([]string{"nil", "nil", "nil", "equal", "equal", "empty", "flip-first", "flip-last", "flip-any", "short", "long", "random", "two-words-cancel", "two-words-cancel"}).Draw(t, name)
 	gen.Class("opt:" + kind)
 	switch kind {
 	case "nil":
@@ -43,6 +43,39 @@ func drawField(t *rapid.T, name string, actual []byte, s *gen.Stream) []byte {
 		b := append([]byte{}, actual...)
 		bit := rapid.IntRange(0, n*8-1).Draw(t, name+"-bit")
 		b[bit/8] ^= 1 << uint(bit%8)
+		return b
+	case "two-words-cancel":
+		// differs from the actual value in two 1/2/4/8-byte words whose differences are equal (x, x) or cancel under
+		// addition (x, -x), in either byte order: a comparison that folds the words into one accumulator would not see it
+		b := append([]byte{}, actual...)
+		width := []int{1, 2, 4, 8}[s.Intn(4)]
+		if n < 2*width {
+			b[0] ^= 1
+			return b
+		}
+		nw := n / width
+		i := s.Intn(nw)
+		j := (i + 1 + s.Intn(nw-1)) % nw
+		x := s.Bytes(width)
+		x[s.Intn(width)] |= 0x01
+		y := append([]byte{}, x...)
+		if s.Intn(3) > 0 {
+			be := s.Intn(2) == 0
+			carry := 1
+			for k := 0; k < width; k++ {
+				idx := k
+				if be {
+					idx = width - 1 - k
+				}
+				v := int(^x[idx]) + carry
+				y[idx] = byte(v)
+				carry = v >> 8
+			}
+		}
+		for k := 0; k < width; k++ {
+			b[i*width+k] ^= x[k]
+			b[j*width+k] ^= y[k]
+		}
 		return b
 	case "short":
 		// one byte short, or shorter still (a prefix of the actual value: a comparison over the common part would match)
@@ -708,9 +741,28 @@ func TestC08(t *testing.T) {
 			p.MinPceSvn = drawMinSvn(t, "minpce", binary.LittleEndian.Uint16(q.Word8[:]))
 		}
 		gen.Class(fmt.Sprintf("single:%d", which))
-		if key, oracle, detail := c08Oracle(q, p, false); key != "" {
+		// the one expectation is the only CONFIGURED check; the fixed bits of XFAM / TD_ATTRIBUTES are checked for every
+		// quote all the same, through either entry point: in a quarter of the cases one of them is violated
+		if rapid.IntRange(0, 3).Draw(t, "fixedBitViolated") == 0 {
+			if rapid.Bool().Draw(t, "inXfam") {
+				x := binary.LittleEndian.Uint64(q.Xfam[:])
+				if rapid.Bool().Draw(t, "clearFixed1") {
+					x &^= 1 << uint(rapid.IntRange(0, 1).Draw(t, "bit1"))
+				} else {
+					x |= ^uint64(gen.XfamFixed0) & (1 << uint(rapid.IntRange(0, 63).Draw(t, "bit0")))
+				}
+				binary.LittleEndian.PutUint64(q.Xfam[:], x)
+			} else {
+				a := binary.LittleEndian.Uint64(q.TdAttr[:])
+				a |= ^uint64(gen.TdAttrAllowed) & (1 << uint(rapid.IntRange(0, 63).Draw(t, "abit")))
+				binary.LittleEndian.PutUint64(q.TdAttr[:], a)
+			}
+			gen.Class("single:with-a-fixed-bit-violated")
+		}
+		raw := rapid.Bool().Draw(t, "rawEntryPoint")
+		if key, oracle, detail := c08Oracle(q, p, raw); key != "" {
 			gen.Fail(t, gen.Violation{Key: key, Oracle: oracle, Detail: detail,
-				Replay: map[string]any{"kind": "validate", "raw_hex": hex.EncodeToString(q.Encode()), "options": fieldsJSON(p), "raw": false}})
+				Replay: map[string]any{"kind": "validate", "raw_hex": hex.EncodeToString(q.Encode()), "options": fieldsJSON(p), "raw": raw}})
 		}
 	})
 	// A quote MESSAGE lacking a TD-body field (nil, empty, or of another size) is not a quote that meets any
